@@ -208,7 +208,23 @@ fn eq_case<Q: QueueApi>(seed: u64, idx: u64, cov: &mut EqCov) -> Result<serde_js
     }
     // clone: equal, behaves identically under the same history, independent
     let mut src = realize::<Q>(&h1).map_err(w)?;
-    let mut cl = State { q: src.q.q_clone(), m: src.m.clone(), order_suspended: false, expected_leaks: 0, used_drain_or_clear: false };
+    // half of the clones are made with clone_from into a queue of a different length
+    let cq = if rng.chance(1, 2) {
+        src.q.q_clone()
+    } else {
+        let mut d = Q::q_new();
+        let k = match rng.below(3) {
+            0 => 0,
+            1 => n / 2,
+            _ => n + 1 + rng.below(4),
+        };
+        for j in 0..k {
+            d.push(Item::new(60_000 + j as u32), Prio::new(rng.range(0, 5)));
+        }
+        d.q_clone_from(&src.q);
+        d
+    };
+    let mut cl = State { q: cq, m: src.m.clone(), order_suspended: false, expected_leaks: 0, used_drain_or_clear: false };
     if !cl.q.eq_q(&src.q) || !src.q.eq_q(&cl.q) {
         return Err(w(eq_viol(kind, "clone", "a clone is not equal to its source".to_string())));
     }
